@@ -100,7 +100,7 @@ def _restore_work(item):
 def run(ctx):
     import multiprocessing as mp
     from harness import pm
-    out = pm_prop.run_pm(ctx, ALPHABET, MONITORS, k_quick=3, k_thorough=4, n_random_quick=400, n_random_thorough=4000)
+    out = pm_prop.run_pm(ctx, ALPHABET, MONITORS, k_quick=3, k_thorough=4, n_random_quick=400, n_random_thorough=4000, listeners=True)
     progs = [(n, p) for n, p in pm.CORPUS.items() if p['kind'] == 'proc' and n != 'RetAwaitable']
     rng = ctx.rng
     for i in range(300 if not ctx.thorough else 3000):
